@@ -118,6 +118,24 @@ func (g *gen) behC10tls() M {
 // inside COPY), unknown Describe / Close targets.
 func (g *gen) behC02() M {
 	steps := []any{g.startupX("u")}
+	if g.chance(0.15) {
+		// a row that is given up after a value of tens of kilobytes has been written into it (the next value cannot
+		// be encoded), then rows that are fine: nothing of the abandoned row reaches the client
+		g.id++
+		cols := []any{M{"name": "doc", "oid": 25}, M{"name": "n", "oid": 23}}
+		prog := []any{
+			M{"op": "row", "cells": []any{M{"c": "v", "big": true}, M{"c": "bad"}}},
+			M{"op": "row", "cells": []any{M{"c": "v", "big": g.chance(0.5)}, M{"c": "v"}}},
+			M{"op": "complete", "tag": "SELECT 1"}, M{"op": "ret", "r": "nil"}}
+		st := M{"id": g.id, "cols": cols, "oids": []any{}, "prog": prog}
+		if g.chance(0.5) {
+			steps = append(steps, send(M{"t": "Q", "q": M{"id": g.id, "parse": "ok", "stmts": []any{st}}}))
+		} else {
+			steps = append(steps, send(M{"t": "P", "name": "", "q": M{"id": g.id, "parse": "ok", "stmts": []any{st}}, "noids": 0}),
+				send(M{"t": "B", "portal": "", "stmt": "", "pfmt": []any{}, "params": []any{}, "rfmt": g.codeList(2)}),
+				send(M{"t": "E", "portal": "", "max": 0}), send(M{"t": "S"}))
+		}
+	}
 	n := 1 + g.rng.Intn(5)
 	for i := 0; i < n; i++ {
 		tyb := []int{0, 0, 1, 9, 10, 13, 27, 34, 37, 92, 127, 128, 159, 173, 255, 70, 97}[g.rng.Intn(17)]
